@@ -486,11 +486,36 @@ def check_validation_formulas(ctx, F, tag):
                 if c_[0] == "const" and len(c_) > 2 and c_[2].endswith(constname):
                     return b.term_of_operand(t_["args"][0]), c_
         return None, None
+    def builder_count_by_residues(b, constname, varname, what):
+        """The same count written another way (`len / C + usize::from(len % C != 0)`, a shift, ..): the local of that name as a
+        function of the one length-like call it contains, compared with ceil(N / C) over residues (A13)."""
+        import residues
+        ls = [l for l in range(len(b.locals)) if b.local_name(l) == varname]
+        cs = [n for n in F.consts if n.endswith(constname) and n.startswith(b.name.rsplit("::", 1)[0].replace("::<T>", ""))] or [n for n in F.consts if n.endswith(constname)]
+        if len(ls) != 1 or not cs:
+            return None, None
+        C = F.const(cs[0])
+        t = b.term_of_local(ls[0])
+        qs = [x for x in subterms(t) if x[0] == "call" and x[1].split("::")[-1] in ("len", "count_ones")]
+        if not qs:
+            return None, None
+        q0 = core(qs[0])
+        r_, why = residues.agrees(F, t, lambda x: core(x) == q0, lambda N: ("call", "usize::div_ceil", (N, ("const", C)), (), "usize::div_ceil"))
+        if r_ is False:
+            ctx.ob("C19.R2.builder-count-formula", b.name + tag, loc(b.raw["span"]), False, "abstract-interpretation(residues)",
+                   "%s = %s against ceil(N / %d): %s" % (what, tstr(t)[:80], C, why), positive=True)
+        if r_:
+            return qs[0], ("const", C, cs[0])
+        return None, None
     q, c = builder_count(rb, "::BLOCK_SIZE")
+    if q is None:
+        q, c = builder_count_by_residues(rb, "::BLOCK_SIZE", "blocks", "number of rank blocks")
     if q is None:
         raise Undecided("RankSupport::new: block count formula not recognised")
     expected["rank"] = (abstract_quantity(F, q, [(("param", 0, rb.local_name(1)), "PARENT")]), core(c)[1])
     q, c = builder_count(sb, "::SUPERBLOCK_SIZE")
+    if q is None:
+        q, c = builder_count_by_residues(sb, "::SUPERBLOCK_SIZE", "superblocks", "number of select superblocks")
     if q is None:
         raise Undecided("SelectSupport::new: superblock count formula not recognised")
     for trans, key in (("bit_vector::Identity", "select"), ("bit_vector::Complement", "select_zero")):
